@@ -231,6 +231,10 @@ func vpYield()        {}
 // the executor; natively approximated by a pause).
 func vpQuiesce() { time.Sleep(30 * time.Millisecond) }
 
+// vpSetClock pins the executor's clock model: 0 arbitrary elapsed times (default), 1 time.Since
+// reports a very long time, 2 time.Since reports zero. No effect natively.
+func vpSetClock(mode int) {}
+
 // vpLiveGoroutines: goroutines started by the harness that have not finished (executor only;
 // natively unknown: 0).
 func vpLiveGoroutines() int { return 0 }
